@@ -12,7 +12,7 @@ ID = "C14"
 LEVEL = "exploration"
 RULE = (
     "COMPLETE enumeration, no sampling: types {bool, byte, uint1..64, int1..64} x start offset 0..7 x position {scalar, "
-    "array element (cap 2, so the second element also visits offset+width), alias, array of alias} x basis values {0, all "
+    "array element (cap 2, so the second element also visits offset+width), alias, array of alias, array (cap 2) of alias of array (2-d; inner capacity chosen so that a row is a whole 8/16/32/64 bits where the width divides one)} x basis values {0, all "
     "ones, every single bit, min, max}. Generated code: per (position, offset) two messages (unsigned kinds / signed kinds) "
     "holding every type, each followed by a pad field restoring the offset; executed through the generated Python module, "
     "the generated C in standard mode and in optimization mode (little-endian branch, and big-endian branch via "
@@ -28,7 +28,16 @@ ASSUMPTIONS = [
     "Go targets are executed through bpverif.gointerp (trusted for its subset)",
 ]
 
-POSITIONS = ["scalar", "array", "alias", "array_of_alias"]
+POSITIONS = ["scalar", "array", "alias", "array_of_alias", "array_of_alias_of_array"]
+
+
+def inner_cap(bits: int) -> int:
+    """2-d arrays: the inner capacity that makes the ROW a whole 8/16/32/64 bits where the width allows it
+    (a row then looks like one standard-width integer to any code that only asks for its total width)."""
+    for total in (8, 16, 32, 64):
+        if total % bits == 0 and total // bits >= 2:
+            return total // bits
+    return 2
 
 
 def all_types(signed: bool) -> List[TBase]:
@@ -59,11 +68,17 @@ def build_unit(position: str, off: int) -> Unit:
                 f.items.append(a)
                 ft = TRef(a.name, a)
                 used = t.bits
-            else:
+            elif position == "array_of_alias":
                 a = Alias(f"Al{'S' if signed else 'P'}{tag.capitalize()}", t)
                 f.items.append(a)
                 ft = TArray(TRef(a.name, a), 2)
                 used = 2 * t.bits
+            else:
+                k = inner_cap(t.bits)
+                a = Alias(f"Al{'S' if signed else 'P'}{tag.capitalize()}", TArray(t, k))
+                f.items.append(a)
+                ft = TArray(TRef(a.name, a), 2)
+                used = 2 * k * t.bits
             m.items.append(Field("f_" + tag, ft, num))
             num += 1
             pad = (8 - used % 8) % 8
